@@ -5,6 +5,7 @@ Request/response grammar: see the head of `harness/src/bin/c18.rs`.
 import Driver.Common
 import Cascette.Model.Compaction
 import Cascette.Spec.Compaction
+import Cascette.Generated.CompactionSrc
 open Cascette Drv
 open Cascette.Model.Compaction
 open Cascette.Spec.Compaction (Span)
@@ -141,10 +142,12 @@ def handle : List String → String
       | some totals =>
         if pre > 2 ^ 23 || totals.any (fun x => x < 39 || x > 2 ^ 22) || totals.length > 64 then "bad-op" else
         -- the file content is not an observable of this op: lengths only
-        let grew := fun (new old : Nat) =>
-          decide (new - old > 64 * 1024 * 1024) ||
-            (if old > 0 then decide (f64 new / f64 old > 2.0) else true)
-        let utilLow := fun (used mapped : Nat) => decide (f64 used / f64 mapped < 1.0 - 0.3)
+        -- remap test of write_to_archive since /repo 6172e03: `new_size != current_size`
+        let grew := fun (new old : Nat) => decide (new ≠ old)
+        -- `utilization < (1.0 - threshold)` with the threshold extracted from the source text
+        let thr : Float := Float.ofNat Cascette.Generated.CompactionSrc.arch_threshold_num /
+          Float.ofNat Cascette.Generated.CompactionSrc.arch_threshold_den
+        let utilLow := fun (used mapped : Nat) => decide (f64 used / f64 mapped < 1.0 - thr)
         let a := totals.foldl (fun a t => archWrite grew a (List.replicate t 0)) (archOpen (List.replicate pre 0))
         let (a', n, r) := archCompact utilLow a
         s!"compacted={n} reclaimed={r} len={a'.file.length}"
